@@ -238,6 +238,16 @@ var messageCheck = &core.Check{Name: "c16/message", Quick: 3000, Thorough: 25000
 	return nil
 }}
 
+func mustImage(c *boc.Cell) *ref.RCell {
+	cp := *c
+	cp.ResetCounters()
+	r, err := gen.FromTongo(&cp, 1000)
+	if err != nil {
+		panic("HARNESS: " + err.Error())
+	}
+	return r
+}
+
 // reuseVariable: one Message variable is used for two decodes and a copy of the first result is kept. The copy
 // must go on describing the first message (both hashes as a fresh decode of the first cell reports them), the
 // variable must describe the second one.
@@ -268,6 +278,94 @@ func reuseVariable(c *core.Ctx, m tlbref.Message, cell *ref.RCell, fresh *tlb.Me
 	first := slot // value copy kept by the caller
 	if err := decodeInto(&slot, oc); err != nil {
 		return fmt.Errorf("decoding a schema-conforming message into a used variable failed: %v", err)
+	}
+	// the same for the source: one boc.Cell variable is overwritten with another message cell between two plain
+	// decodes (same address, other content), and a body cell shared by two message cells grows in between
+	{
+		parse := func(rc *ref.RCell) (*boc.Cell, error) {
+			cells, e := boc.DeserializeBoc(ref.SerializeBOC([]*ref.RCell{rc}, ref.BocVariant{}))
+			if e != nil {
+				return nil, fmt.Errorf("HARNESS: %v", e)
+			}
+			return cells[0], nil
+		}
+		ca, err := parse(cell)
+		if err != nil {
+			return err
+		}
+		cb, err := parse(oc)
+		if err != nil {
+			return err
+		}
+		var src boc.Cell
+		var m1, m2 tlb.Message
+		src = *ca
+		if err := tlb.Unmarshal(&src, &m1); err != nil {
+			return fmt.Errorf("decoding a schema-conforming message failed: %v", err)
+		}
+		src = *cb
+		if err := tlb.Unmarshal(&src, &m2); err != nil {
+			return fmt.Errorf("decoding a schema-conforming message from a reused cell variable failed: %v", err)
+		}
+		if m1.Hash(false) != fresh.Hash(false) || m2.Hash(false) != op.Hash(false) {
+			return fmt.Errorf("two messages decoded one after the other from one boc.Cell variable report hashes %x and %x; the cells hash to %x and %x",
+				m1.Hash(false), m2.Hash(false), fresh.Hash(false), op.Hash(false))
+		}
+		c.Class("cell variable reused as the source of two decodes")
+	}
+	if !m.Body.Special && m.BodyInRef && len(m.Body.Refs) == 0 && m.Body.BitLen < 1000 {
+		// in-memory cells: message A refers to body cell B; B grows by one bit; message A' (same header) refers to B
+		hdr := m
+		hdr.Body = ref.NewRCell(nil, false)
+		hdr.BodyInRef = false
+		if hc, fits := msgCell(hdr); fits && hc.BitLen >= 1 && len(hc.Refs) <= 3 {
+			body, err := gen.ToTongo(m.Body, true, 10)
+			if err != nil {
+				return fmt.Errorf("HARNESS: %v", err)
+			}
+			build := func() (*boc.Cell, []byte, error) {
+				// the header bits of the inline form end with the Either bit 0 of the body; flip it to 1 and add the reference
+				hb := hc.Bits().Clone()
+				hb[len(hb)-1] = true
+				rc := ref.NewRCell(hb, false, append(append([]*ref.RCell{}, hc.Refs...), mustImage(body))...)
+				mc := boc.NewCell()
+				if err := mc.WriteBitString(gen.BitString(hb)); err != nil {
+					return nil, nil, err
+				}
+				for _, r := range hc.Refs {
+					tr, err := gen.ToTongo(r, true, 1000)
+					if err != nil {
+						return nil, nil, err
+					}
+					if err := mc.AddRef(tr); err != nil {
+						return nil, nil, err
+					}
+				}
+				if err := mc.AddRef(body); err != nil {
+					return nil, nil, err
+				}
+				return mc, rc.ReprHash(), nil
+			}
+			for round := 0; round < 2; round++ {
+				mc, want, err := build()
+				if err != nil {
+					return fmt.Errorf("HARNESS: %v", err)
+				}
+				var mm tlb.Message
+				if err := tlb.Unmarshal(mc, &mm); err != nil {
+					// the inline-empty-body trick only yields a valid message when the body Either bit is the last header bit
+					c.Class("shared growing body: header form not usable")
+					break
+				}
+				if h := mm.Hash(false); !bytes.Equal(h[:], want) {
+					return fmt.Errorf("round %d: a message whose body cell is shared with an earlier message and has grown since reports hash %x, its cell hashes to %x", round, h, want)
+				}
+				if err := body.WriteBit(round == 0); err != nil {
+					break
+				}
+				c.Class("body cell shared by two messages grew between the decodes")
+			}
+		}
 	}
 	c.Class("message variable reused, copy of the first result kept")
 	if slot.Hash(false) != op.Hash(false) || slot.Hash(true) != op.Hash(true) {
